@@ -8,8 +8,12 @@ tie (C)    : harness/c11_strings.c — (a) libxmp_copy_adjust / libxmp_adjust_st
              walking random synthetic loader tables (harness/c11_table.c replaces format.c), return codes and
              both xmp_test_info arrays and mod->name; (c) the eight public wrappers (argument checks, open
              failures, depack step, caller's FILE, descriptors) — each against the native driver drv_c11
+             harness/c11_core.c — the REAL libxmp_loader_{xm,mod,it,s3m}.test on memory / FILE / callback handles, the real
+             test_module on the real table and mod->name after real loads, against XmpModel/TestLoadCore.lean (byte-exact
+             models of xm_test, mod_test, it_test, s3m_test) on generated and mutated headers
 search     : harness/c11_agree.c — the property as stated, on the real loaders: corpus files x truncations x
-             bit flips x the four entry-point pairs; title relation decided by the Lean function (drv_c11 `tm`)
+             bit flips x title-field fills x the four entry-point pairs; container-signature hits and certified near
+             misses planted into valid modules; title relation decided by the Lean function (drv_c11 `tm`)
 """
 import os
 import re
@@ -23,20 +27,33 @@ import gen_c11  # noqa: E402
 LEVEL = "proof"
 MANIFEST = dict(
     category="proof",
-    text="Lean 4 theorems (XmpProps.C11) over a model of src/load.c's test_module/load_module and the eight public wrappers, for EVERY "
-         "loader table and stream: C11_agree (test = 0 <-> load gets past recognition, test = -FORMAT <-> load = -FORMAT, same depack/system "
-         "error otherwise, given each loader's test() is a function of the stream whose verdict does not depend on the title pointer), "
-         "C11_strings (NUL-terminated name/type within 64 bytes on success, both empty on failure), C11_title (libxmp_copy_adjust and "
-         "libxmp_adjust_string agree up to the canonical form on every byte string), C11_no_side_effect (caller's FILE never closed, "
-         "library's own FILE closed exactly once). Tied to the C on every run by a differential correspondence (real string helpers, "
-         "real test_module/load_module on synthetic loader tables, real wrappers vs the native Lean driver) and a direct oracle on the "
-         "real loaders over the corpus with truncations and bit flips through all four entry-point pairs.",
-    note="Trusted: Lean kernel, the hand-written model XmpModel/TestLoad.lean, tools/gen_c11.py, harnesses and differ. "
-         "Modelled-not-verified: each of the ~95 per-format *_test/*_load pairs and the 43 ProWizard detectors are parameters of the model "
-         "(their mutual consistency and their title extraction are searched by the oracle, not proved); libxmp_decrunch is a parameter "
-         "(its verdict is taken from the real function); allocation failures inside the wrappers are not modelled. "
-         "Correspondence is sampled (differential), not exhaustive.",
-    technique="Lean 4 proof by induction over the loader table with a same-data invariant + differential correspondence + corpus mutation oracle",
+    text="Lean 4 theorems (XmpProps.C11, C11Core, C11CoreRead) over a model of src/load.c's test_module/load_module and the eight public "
+         "wrappers, for EVERY loader table and stream: C11_agree (test = 0 <-> load gets past recognition, test = -FORMAT <-> load = -FORMAT, "
+         "same depack/system error otherwise, given each loader's test() is a function of the stream whose verdict does not depend on the "
+         "title pointer), C11_strings, C11_title (libxmp_copy_adjust and libxmp_adjust_string agree up to the canonical form on every byte "
+         "string), C11_no_side_effect (caller's FILE never closed and always recoverable by one rewind, library's own FILE closed exactly "
+         "once). For the four core formats the test functions xm_test, mod_test (magic table, header sanity loop, UNIC size test, pattern "
+         "validation), it_test, s3m_test are modelled byte-exactly and the per-loader hypotheses are DISCHARGED: C11_core_premise, "
+         "C11_agree_core(_four), C11_core_verdict (a core probe accepts => test returns 0 with that format and load returns 0/-LOAD/-SYSTEM, "
+         "never -FORMAT, whatever follows in the table), C11_core_reject, C11_core_title (test title = loaded title up to the replacement "
+         "characters, strictly, end to end through both dispatch loops, for every accepted input), C11_core_read_title/_accepts (agreement "
+         "with C19's byte-level readers). For ALL loaders, facts regenerated from the sources are decided: every test function stores its "
+         "title only through libxmp_read_title / libxmp_copy_adjust / pw_read_title or sets it empty; the loaders that set it empty or "
+         "conditionally are exactly the known findings; the title width a test function reads equals the width its loader stores "
+         "(C11_title_widths; UMX against the wrapped formats). Tied to the C on every run by differential correspondences (real string "
+         "helpers, real test_module/load_module on synthetic tables, real wrappers, the real core test functions on three back-ends and the "
+         "real table) and a direct oracle on the real loaders over the corpus with truncations, bit flips, title-field fills and planted "
+         "container signatures through all four entry-point pairs.",
+    note="Trusted: Lean kernel, the hand-written models XmpModel/TestLoad.lean and TestLoadCore.lean, tools/gen_c11.py, harnesses and "
+         "differ. Modelled-not-verified: the *_test/*_load pairs of the ~49 non-core formats and the 43 ProWizard detectors are parameters "
+         "of the model (their mutual consistency and their title extraction are searched by the oracle; only their syntactic title "
+         "discipline and literal title widths are decided over regenerated facts); the bodies of the four core loaders are parameters "
+         "except for the bytes they store in mod->name (tied by comparing mod->name after real loads); C11_core_read_accepts is not proved "
+         "for MOD (C19's reader inlines mod_test in another shape); libxmp_decrunch is a parameter (its verdict is taken from the real "
+         "function; container-ness of planted near misses is certified by the generator, independent of the code); allocation failures "
+         "inside the wrappers are not modelled. Correspondence is sampled (differential), not exhaustive.",
+    technique="Lean 4 proof by induction over the loader table with a same-data invariant; byte-exact models of four test functions; "
+              "decide over regenerated source facts; differential correspondence; corpus mutation oracle",
     design_ref="DESIGN.md section 4 C11",
 )
 REQUIRED = ["Xmp.TestLoad." + n for n in (
@@ -44,7 +61,14 @@ REQUIRED = ["Xmp.TestLoad." + n for n in (
     "C11_strings_success_partial", "C11_strings_counterexample", "C11_strings_wrapper_counterexample",
     "C11_strings_wrappers_partial", "C11_strings_wrappers", "C11_title", "C11_title_strict", "C11_title_buffers", "C11_title_raw", "C11_title_exact",
     "C11_no_side_effect", "C11_no_leak", "C11_no_close_mem_cb", "C11_codes_distinct", "C11_prepare_scan_codes",
-    "C11_table_names")]
+    "C11_table_names",
+    # core formats (XmpProps.C11Core)
+    "C11_core_table_head", "C11_core_calls", "C11_core_names", "C11_core_premise", "C11_agree_core", "C11_agree_core_four",
+    "C11_core_verdict", "C11_core_reject", "C11_core_title_bytes", "C11_core_title",
+    # regenerated facts about all test functions, FILE usability (XmpProps.C11Core)
+    "C11_tests_title_discipline", "C11_tests_title_deviants", "C11_title_widths", "C11_title_widths_coverage", "C11_file_usable",
+    # C19 readers (XmpProps.C11CoreRead)
+    "C11_core_read_title", "C11_core_read_accepts")]
 
 GARB_BUF = 0xDD
 GARB_PW = 0xEE
@@ -249,13 +273,223 @@ def correspondence(ck, exe, scratch, pool):
 
 
 # --------------------------------------------------------------------------
+# correspondence: the four core test functions (harness/c11_core.c vs XmpModel/TestLoadCore.lean)
+# --------------------------------------------------------------------------
+
+CORE_NAMES = []          # format_loaders[0..3]->name, from the translator
+
+
+def mod_branch(d):
+    """which statement of mod_test decides on this input (coverage bookkeeping only; the verdict itself is
+    compared between the real function and the Lean model)"""
+    if len(d) < 1084:
+        return "short"
+    mg = d[1080:1084]
+    if (mg[2:] == b"CH" and mg[:2].isdigit() and 0 < int(mg[:2]) <= 32) or (mg[1:] == b"CHN" and mg[:1].isdigit() and mg[:1] != b"0"):
+        return "digits"
+    tbl = dict(MOD_MAGIC)
+    if mg not in tbl:
+        return "no-magic"
+    for i in range(31):
+        h = d[20 + 30 * i:50 + 30 * i]
+        if (h[24] & 0xf0 and h[24] != 0x20):
+            return "finetune"
+        if h[25] > 0x40:
+            return "volume"
+    if tbl[mg]:
+        return "detected"
+    smp = sum(2 * int.from_bytes(d[42 + 30 * i:44 + 30 * i], "big") for i in range(31))
+    mx = 0
+    for x in d[952:1080]:
+        if x > 0x7f:
+            break
+        mx = max(mx, x)
+    npat = mx + 1
+    if 1084 + npat * 0x300 + smp == len(d):
+        return "unic-size"
+    if 1084 + 1024 * npat > len(d):
+        return "pattern-cut"
+    bad = sum(1 for i in range(npat) if any(d[1084 + 1024 * i + 4 * c] >> 4 > 1 for c in range(256)))
+    return "bad-patterns>2" if bad > 2 else "validated(bad=%d)" % bad
+
+
+MOD_MAGIC = []
+
+
+def run_core_shard(args):
+    exe, a = args
+    rc, out, err = vlib.run_exe(exe, a, timeout=1200)
+    return rc, out.decode("latin-1"), err
+
+
+def correspondence_core(ck, g):
+    """real libxmp_loader_{xm,mod,it,s3m}.test (memory / FILE / callback handles), the real test_module on the real
+    table, and mod->name after a real load, against the Lean model of the four test functions."""
+    global CORE_NAMES, MOD_MAGIC
+    CORE_NAMES = [n.encode() for n in g["names"][:4]]
+    MOD_MAGIC = [(a.encode("latin-1"), b) for a, b in g["mod_magic"]]
+    quick = ck.tier == "quick"
+    exe = vlib.build_harness("c11_core", ["c11_core.c"])
+    files = [f for f in vlib.corpus_files() if os.path.getsize(f) < 49152 and
+             f.lower().rsplit(".", 1)[-1] in ("xm", "mod", "it", "s3m")]
+    files.sort()
+    ck.rng.shuffle(files)
+    files = files[:48 if quick else 400]
+    nsh = 4 if quick else 12
+    shards = [(exe, ["hdr", str(ck.seed * 7919 + 31 * i + 5), str(250 if quick else 2500)]) for i in range(nsh)]
+    shards += [(exe, ["files", str(ck.seed * 6151 + i), str(2 if quick else 8)] + files[i::nsh]) for i in range(nsh) if files[i::nsh]]
+    stats = {"ct": 0, "cw_hit": 0, "cw_other": 0, "cn": 0, "accept": {}, "mod_branch": {}, "title_pairs": 0}
+    for (rc, out, err), sh in zip(vlib.pmap(run_core_shard, shards), shards):
+        if rc != 0:
+            sig = vlib.sanitizer_signature(err)
+            ck.violation("harness-abort:core:%s" % sig, {"cmd": ["c11_core"] + sh[1], "stderr": err[-3000:]},
+                         "c11_core %s aborted (rc=%d): %s" % (sh[1][0], rc, sig))
+            continue
+        cases = split_qa(out)
+        if not ck.lean_ok:
+            continue
+        mo = vlib.run_driver("drv_c11", "".join(q[0] + "\n" for q, _ in cases))
+        if len(mo) != len(cases):
+            ck.unproved("correspondence TestLoadCore vs loaders/{xm,mod,it,s3m}_load.c", "driver answered %d lines for %d requests" % (len(mo), len(cases)))
+            return stats
+        last_cw = None
+        tpairs = []
+        for (q, a), m in zip(cases, mo):
+            qf = q[0].split(" ")
+            tag = qf[0]
+            why = None
+            if tag == "ct":
+                extra = [x for x in a if x.startswith("backend")]
+                if extra:
+                    why = "the back-ends disagree on the real code: " + extra[0][:200]
+                elif len(a) != 1 or a[0] != m:
+                    why = "test function %s_test differs" % qf[1]
+                else:
+                    f = a[0].split(" ")
+                    stats["ct"] += 1
+                    if f[1] == "0":
+                        stats["accept"][qf[1]] = stats["accept"].get(qf[1], 0) + 1
+                    if qf[1] == "mod" and len(f) > 1 and f[1] != "skip":
+                        b = mod_branch(hexb(qf[2]))
+                        stats["mod_branch"][b] = stats["mod_branch"].get(b, 0) + 1
+                ck.count(vlib.hash_str(q[0]), nontrivial=True)
+            elif tag == "cw":
+                r = a[0].split(" ")
+                last_cw = r
+                if m == "cw none":
+                    stats["cw_other"] += 1
+                    if r[1] == "0" and hexb(r[2]) in CORE_NAMES:
+                        why = "the model says no core test accepts, the real test_module reports '%s'" % hexb(r[2]).decode("latin-1")
+                else:
+                    stats["cw_hit"] += 1
+                    if a[0] != m:
+                        why = "test_module on the real table differs from the four-entry model"
+                ck.count(vlib.hash_str(q[0]), nontrivial=(m != "cw none"))
+            elif tag == "cn":
+                stats["cn"] += 1
+                if len(a) != 1 or a[0] != m:
+                    why = "mod->name left by %s_load differs" % qf[1]
+                if last_cw is not None and len(a) == 1:
+                    tpairs.append((cstr(hexb(last_cw[3])).hex(), cstr(hexb(a[0].split(" ")[1])).hex(), qf[1], q[0]))
+                ck.count(vlib.hash_str(q[0]), nontrivial=True)
+            if why is None:
+                ck.cov["traces_validated_against_impl"] += 1
+            else:
+                ck.unproved("correspondence TestLoadCore vs loaders/{xm,mod,it,s3m}_load.c",
+                            "%s ; driver input: %s\nreal:\n%s\nmodel:\n%s" % (why, q[0][:400], "\n".join(x[:400] for x in a), m[:400]))
+                return stats
+        # direct oracle on the same runs: test title vs loaded title (the property's title clause)
+        verdict = eval_titles(ck, [(t, l) for t, l, _, _ in tpairs])
+        for t, l, fmt, q in tpairs:
+            stats["title_pairs"] += 1
+            canon_ok, strict_ok = verdict.get((t, l), (True, True))
+            if not (canon_ok and strict_ok):
+                ck.violation("title:core:%s" % fmt, {"case": [q]},
+                             "%s: test title %r does not match loaded title %r" % (fmt, hexb(t), hexb(l)))
+    return stats
+
+
+# --------------------------------------------------------------------------
+# container-signature collisions (certified non-containers through all four pairs)
+# --------------------------------------------------------------------------
+
+def _hx(b):
+    return b.hex()
+
+
+# (container, "hit" | "miss", variant ops).  A "hit" is the documented signature of that container format; a "miss" differs
+# from it in a way the format's documentation excludes (and is no other container's signature): bytes planted at the
+# start of a module (where MOD / S3M / STM / ... keep their title) that must NOT make the file a container.
+SIG_PLANTS = [
+    ("zip", "hit", "h:0." + _hx(b"PK\x03\x04")), ("zip", "hit", "h:0." + _hx(b"PK00PK\x03\x04")),
+    ("zip", "miss", "h:0." + _hx(b"PK\x03\x05")), ("zip", "miss", "h:0." + _hx(b"PK\x04\x04")),
+    ("zip", "miss", "h:0." + _hx(b"PK00PK\x03\x05")), ("zip", "miss", "h:0." + _hx(b"PL\x03\x04")),
+    ("lha", "hit", "h:2." + _hx(b"-lh5-") + ";z:20.0"), ("lha", "miss", "h:2." + _hx(b"-lh5-") + ";z:20.4"),
+    ("lha", "miss", "h:2." + _hx(b"-lh5+") + ";z:20.0"), ("lha", "miss", "h:2." + _hx(b"-lg5-") + ";z:20.0"),
+    ("lha", "miss", "h:2." + _hx(b"+lh5-") + ";z:20.0"),
+    ("gzip", "hit", "h:0.1f8b08"), ("gzip", "miss", "h:0.1f8a08"), ("gzip", "miss", "h:0.1e8b08"), ("gzip", "miss", "h:0.1f8c08"),
+    ("bzip2", "hit", "h:0." + _hx(b"BZh9")), ("bzip2", "miss", "h:0." + _hx(b"BZg9")), ("bzip2", "miss", "h:0." + _hx(b"BYh9")),
+    ("bzip2", "miss", "h:0." + _hx(b"bZh9")), ("bzip2", "miss", "h:0." + _hx(b"BZi9")),
+    ("xz", "hit", "h:0.fd377a585a00"), ("xz", "miss", "h:0.fd377a585a01"), ("xz", "miss", "h:0.fd377a585b00"),
+    ("xz", "miss", "h:0.fc377a585a00"),
+    ("compress", "hit", "h:0.1f9d90"), ("compress", "miss", "h:0.1f9c90"), ("compress", "miss", "h:0.1f9e90"),
+    ("pp", "hit", "h:0." + _hx(b"PP20")), ("pp", "miss", "h:0." + _hx(b"PP21")), ("pp", "miss", "h:0." + _hx(b"QP20")),
+    ("pp", "miss", "h:0." + _hx(b"PP2\x00")),
+    ("sqsh", "hit", "h:0." + _hx(b"XPKF\x00\x00\x01\x00SQSH")), ("sqsh", "miss", "h:0." + _hx(b"XPKF\x00\x00\x01\x00SQSI")),
+    ("sqsh", "miss", "h:0." + _hx(b"XPKG\x00\x00\x01\x00SQSH")),
+    ("arc", "hit", "h:0." + _hx(b"\x1a\x02ABC\x00")), ("arc", "hit", "h:0." + _hx(b"\x1a\x08ABCDEFGH.MOD\x00")),
+    # the 13-byte name field without its terminator / with a control character / wrong marker byte
+    ("arc", "miss", "h:0." + _hx(b"\x1a\x02ABCDEFGHIJKLMNOPQR")), ("arc", "miss", "h:0." + _hx(b"\x1a\x02ABCDEFGHIJKLM\x00")),
+    ("arc", "miss", "h:0." + _hx(b"\x1a\x02AB\x01C\x00")), ("arc", "miss", "h:0." + _hx(b"\x1a\x02AB\x7f\x00")),
+    ("arc", "miss", "h:0." + _hx(b"\x1b\x02ABC\x00")),
+    ("arcfs", "hit", "h:0." + _hx(b"Archive\x00")), ("arcfs", "miss", "h:0." + _hx(b"Archive\x01")),
+    ("arcfs", "miss", "h:0." + _hx(b"Archivf\x00")),
+    ("mmcmp", "hit", "h:0." + _hx(b"ziRCONia")), ("mmcmp", "miss", "h:0." + _hx(b"ziRCONib")), ("mmcmp", "miss", "h:0." + _hx(b"ziRCONiA")),
+    ("lzx", "hit", "h:0." + _hx(b"LZX")), ("lzx", "miss", "h:0." + _hx(b"LZY")), ("lzx", "miss", "h:0." + _hx(b"KZX")),
+    ("lzx", "miss", "h:0." + _hx(b"LzX")),
+    ("s404", "hit", "h:0." + _hx(b"S404")), ("s404", "miss", "h:0." + _hx(b"S405")), ("s404", "miss", "h:0." + _hx(b"S4O4")),
+    ("s404", "miss", "h:0." + _hx(b"T404")),
+]
+
+
+def synth_mod():
+    """a valid, loadable 4-channel MOD: title at offset 0, one empty pattern, no sample data"""
+    ins = b"".join((b"ins%02d" % i).ljust(22, b"\0") + b"\0\0" + b"\0" + b"\x40" + b"\0\0" + b"\0\1" for i in range(31))
+    return b"verif signature test".ljust(20, b"\0") + ins + bytes([1, 0x7f]) + bytes(128) + b"4CHN" + bytes(1024)
+
+
+def signature_cases(ck, scratch):
+    """(variant, path) list: every planted prefix on a synthetic MOD and on small real modules of formats that keep
+    their title at the start of the file"""
+    base = os.path.join(scratch, "sigbase.mod")
+    open(base, "wb").write(synth_mod())
+    bases = [base]
+    want = {"mod": 2, "s3m": 1, "stm": 1, "xm": 1, "it": 1}
+    for f in sorted(vlib.corpus_files(), key=lambda f: (os.path.getsize(f), f)):
+        ext = f.lower().rsplit(".", 1)[-1]
+        if want.get(ext, 0) > 0 and 2000 < os.path.getsize(f) < 60000:
+            want[ext] -= 1
+            bases.append(f)
+    out = []
+    for i, b in enumerate(bases):
+        # the synthetic module and the first real one get every plant; the others a seed-dependent sample
+        plants = SIG_PLANTS if i < 2 or ck.tier != "quick" else ck.rng.sample(SIG_PLANTS, 12)
+        for cont, kind, ops in plants:
+            out.append((("N;" if kind == "miss" else "") + ops, b, cont, kind))
+    return out
+
+
+# --------------------------------------------------------------------------
 # direct oracle
 # --------------------------------------------------------------------------
 
 def type_key(t):
-    """short, stable key of a format name: 'DIGI Booster' -> 'digi', 'Fuchs Tracker' -> 'fuchs'"""
+    """short, stable key of a format name: 'DIGI Booster' -> 'digi', 'Fuchs Tracker' -> 'fuchs'; a trailing number is kept
+    ('Epic MegaGames MASI 16' -> 'epic16', distinct from 'Epic MegaGames MASI' -> 'epic')"""
     w = re.sub(r"[^a-z0-9 ]", "", t.decode("latin-1").lower()).split()
-    return w[0] if w else "none"
+    if not w:
+        return "none"
+    return w[0] + (w[-1] if len(w) > 1 and w[-1].isdigit() else "")
 
 
 def title_signature(ftype, uninit=False, test_title=b"", load_title=b""):
@@ -425,6 +659,11 @@ def judge_files(ck, files, exe_name, stats, msan=False):
             stats["crashes"] += 1
 
 
+def case_path(f):
+    """corpus/c11_cases.json: relative to /repo, or to /verif when it starts with `@verif/`"""
+    return os.path.join(vlib.VERIF, f[len("@verif/"):]) if f.startswith("@verif/") else os.path.join(vlib.REPO, f)
+
+
 def oracle(ck, scratch):
     quick = ck.tier == "quick"
     bystander = os.path.join(vlib.REPO, "test", "test.xm")
@@ -447,11 +686,11 @@ def oracle(ck, scratch):
     import json
     cases = json.load(open(os.path.join(vlib.VERIF, "corpus", "c11_cases.json")))["cases"]
     for msan, x in ((False, exe), (True, exem)):
-        sel = [c for c in cases if os.path.exists(os.path.join(vlib.REPO, c["file"])) and (not msan or c.get("msan"))]
+        sel = [c for c in cases if os.path.exists(case_path(c["file"])) and (not msan or c.get("msan"))]
         if not sel or x is None:
             continue
         lst = os.path.join(scratch, "cases-%d.txt" % msan)
-        open(lst, "w").write("".join("%s\t%s\n" % (c["variant"], os.path.join(vlib.REPO, c["file"])) for c in sel))
+        open(lst, "w").write("".join("%s\t%s\n" % (c["variant"], case_path(c["file"])) for c in sel))
         os.makedirs(os.path.join(scratch, "c%d" % msan), exist_ok=True)
         rc, out, err = vlib.run_exe(x, ["cases", os.path.join(scratch, "c%d" % msan), bystander, lst], timeout=1200,
                                     env={"MSAN_OPTIONS": "halt_on_error=1:exit_code=86"})
@@ -459,6 +698,24 @@ def oracle(ck, scratch):
             raise vlib.InfraError("c11_agree cases failed (rc=%d): %s" % (rc, err[-2000:]))
         judge_files(ck, parse_oracle(out.decode("latin-1"), err), "c11_agree(msan)" if msan else "c11_agree", stats, msan=msan)
     ck.note("oracle_seeded_cases", len(cases))
+    # container-signature collisions: exact hits and certified near misses planted into valid modules
+    sig = signature_cases(ck, scratch)
+    lst = os.path.join(scratch, "cases-sig.txt")
+    open(lst, "w").write("".join("%s\t%s\n" % (v, p) for v, p, _, _ in sig))
+    os.makedirs(os.path.join(scratch, "csig"), exist_ok=True)
+    rc, out, err = vlib.run_exe(exe, ["cases", os.path.join(scratch, "csig"), bystander, lst], timeout=1200)
+    if rc != 0:
+        raise vlib.InfraError("c11_agree cases (signatures) failed (rc=%d): %s" % (rc, err[-2000:]))
+    before = dict(stats["rc_table"])
+    sfiles = parse_oracle(out.decode("latin-1"), err)
+    judge_files(ck, sfiles, "c11_agree", stats)
+    sig_rc = {}
+    for f in sfiles:
+        for r in f["R"]:
+            k = "%s:%s test=%s,load=%s" % ("miss" if r[0].startswith("N;") else "hit", r[1], r[2], r[3])
+            sig_rc[k] = sig_rc.get(k, 0) + 1
+    ck.note("signature_plants", {"cases": len(sig), "containers": len({c for _, _, c, _ in sig}),
+                                 "misses": len([1 for _, _, _, k in sig if k == "miss"]), "rc": sig_rc})
     # large files first, round-robin over shards
     order = sorted(files, key=lambda f: -os.path.getsize(f))
     nsh = vlib.NCPU
@@ -494,7 +751,7 @@ def run(ck):
     PWUNTITLED = {n.encode() for n in g["pw_untitled"]}
     PW_TITLE_INIT = bool(g["pw_title_init"])
     ck.note("generated", {k: g[k] for k in ("changed", "n_loaders", "n_pw", "prepare_returns", "pw_title_init")})
-    ck.proofs(["XmpProps.C11"], required=REQUIRED, drivers=["drv_c11"])
+    ck.proofs(["XmpProps.C11", "XmpProps.C11Core", "XmpProps.C11CoreRead"], required=REQUIRED, drivers=["drv_c11"])
     exe = vlib.build_harness("c11_strings", ["c11_strings.c", "c11_table.c"])
     scratch = os.path.join(vlib.OUT, "c11-scratch-%d" % os.getpid())
     os.makedirs(scratch, exist_ok=True)
@@ -506,6 +763,9 @@ def run(ck):
         for k, v in sorted(stats.items()):
             ck.note(k, v)
         ck.note("correspondence_cases", ncases)
+        cstats = correspondence_core(ck, g)
+        for k, v in sorted(cstats.items()):
+            ck.note("core_" + k, v)
         oracle(ck, scratch)
     finally:
         import shutil
@@ -516,7 +776,9 @@ def run(ck):
                       "byte or a trailing space, for table/wrap cases = every case. Oracle triples: distinct by (file, variant, pair), "
                       "non-trivial = a mutated variant, or an input some loader recognises")
     ck.assumptions += [
-        "Premise/NonPos: each loader's test() only reads the stream, its verdict does not depend on whether a title buffer is passed, and it "
+        "the four core test functions are the Lean functions xmTest/modTest/itTest/s3mTest (tie: harness/c11_core.c on three back-ends, "
+        "C11_core_calls on the regenerated call lists); for them Premise/NonPos are theorems (C11_core_premise), not assumptions",
+        "Premise/NonPos (all other loaders): each loader's test() only reads the stream, its verdict does not depend on whether a title buffer is passed, and it "
         "never returns a positive value (hypotheses of C11_agree; re-checked on the real format_loaders[] by the oracle for every input of "
         "the memory pair: a failure is reported as a broken premise)",
         "PrepOk: libxmp_prepare_scan returns only values listed by the translator from its `return` statements (C11_prepare_scan_codes)",
